@@ -25,8 +25,10 @@ CONSTANTS TextPool,      \* set of token sequences used for strings / map keys
 
 IntAtoms(p) == IF p = "int32" THEN {"0", "1", "-1", "MAX32", "MIN32"}
                ELSE {"0", "1", "-1", "MAX32", "MIN32", "MAX64", "MIN64", "2^53+1"}
-FloatAtoms(p) == {"0", "-0", "1.5", "-2.5e-8", "NaN", "+Inf", "-Inf", "1e21", "1e21-", "1e-7", "1e-7-", "MAXF32", "TINYF32"}
-                 \cup (IF p = "float64" THEN {"MAXF64", "TINYF64", "0.1"} ELSE {})
+\* ("1e21-" / "1e-7-" are the float64 neighbours just below the formatting switches; as float32 they collapse onto
+\*  "1e21" / "1e-7", so the float32 pool does not list them: atoms of one pool denote pairwise different numbers)
+FloatAtoms(p) == {"0", "-0", "1.5", "-2.5e-8", "NaN", "+Inf", "-Inf", "1e21", "1e-7", "MAXF32", "TINYF32"}
+                 \cup (IF p = "float64" THEN {"MAXF64", "TINYF64", "0.1", "1e21-", "1e-7-"} ELSE {})
 
 Num(p, a) == [t |-> "num", p |-> p, v |-> a]
 Str(s) == [t |-> "str", v |-> s]
@@ -91,6 +93,7 @@ Vals(ty) ==
                         \cup {[t |-> "arr", v |-> << Base(ty.e), x >>] : x \in Vals(ty.e)}        \* the SECOND element varies too
     [] ty.k = "map"  -> {[t |-> "map", v |-> <<>>],
                          [t |-> "map", v |-> << [k |-> <<"b">>, v |-> Base(ty.e)], [k |-> <<"a">>, v |-> Base(ty.e)] >>],
+                         [t |-> "map", v |-> << [k |-> <<"a">>, v |-> Base(ty.e)], [k |-> <<"b">>, v |-> Base(ty.e)] >>],
                          [t |-> "map", v |-> << [k |-> <<"a">>, v |-> Base(ty.e)], [k |-> <<"b">>, v |-> Base(ty.e)], [k |-> <<"B">>, v |-> Base(ty.e)] >>]}
                         \cup {[t |-> "map", v |-> << [k |-> s, v |-> Base(ty.e)] >>] : s \in TextPool}
                         \cup {[t |-> "map", v |-> << [k |-> <<"alnum">>, v |-> x] >>] : x \in Vals(ty.e)}
@@ -121,5 +124,19 @@ Canon(ty, av) ==
          IN [t |-> "union", a |-> av.a, v |-> Canon(m.ty, av.v)]
     [] OTHER -> av
 
-\* required fields (no default, not optional) of a record that the value does not carry, with full paths: used by C06
+-----------------------------------------------------------------------------
+(* Norm: the normal form under abstract equality (C10).  Two values are abstractly equal iff their normal forms are  *)
+(* identical: record fields and map entries become SETS (supply / insertion order is irrelevant), everything else is  *)
+(* kept, so any difference in a field, element, union member or optional presence shows.  -0 is identified with 0     *)
+(* (IEEE equality, which is what == means in Go); NaN stays a distinct atom and is excluded from reflexivity.         *)
+RECURSIVE Norm(_)
+Norm(av) ==
+  CASE av.t = "num"  -> [t |-> "num", v |-> IF av.v = "-0" THEN "0" ELSE av.v]
+    [] av.t = "rec"  -> [t |-> "rec", v |-> {[k |-> av.v[i].k, v |-> Norm(av.v[i].v)] : i \in DOMAIN av.v}]
+    [] av.t = "map"  -> [t |-> "map", v |-> {[k |-> av.v[i].k, v |-> Norm(av.v[i].v)] : i \in DOMAIN av.v}]
+    [] av.t = "arr"  -> [t |-> "arr", v |-> [i \in DOMAIN av.v |-> Norm(av.v[i])]]
+    [] av.t = "union" -> [t |-> "union", a |-> av.a, v |-> Norm(av.v)]
+    [] OTHER -> av
+\* the key part of a complex key: the value without its $params
+KeyPart(av) == IF av.t = "rec" THEN [t |-> "rec", v |-> SelectSeq(av.v, LAMBDA e : e.k # "$params")] ELSE av
 =============================================================================
